@@ -27,12 +27,23 @@ Three parts:
      (read once more after the whole battery) and `read=base[<chain below>].<read>@after_view` (an object
      the view was derived from, read after the view); these keys are used only when a freshly built,
      never-read object answers the same read correctly - otherwise the plain cell is what is reported.
-     `.reshape[-1]` in the chain marks a reshape with an inferred axis.
+     `.reshape[-1]` in the chain marks a reshape with an inferred axis.  `RLE{as=bool}`: run-length data of an
+     integer array declared with another dtype (the encoding represents array.astype(dtype)).  `RLE[uint64]`,
+     `RLE[float64]`: the dtype of the run-length data when it is not int64.  The reads gather_nd:list /
+     :idx_uint8 / :idx_int32 / :negative (the same index set as a nested list, as an index array of another
+     integer dtype, with negative entries) are judged only on objects whose plain gathers are right, and their
+     key carries the outermost class only (`enc=Flipped(*)`); negative indices may be refused with IndexError /
+     ValueError, not answered differently from the dense array.
  (3) VoxelGrid: points_to_indices o indices_to_points (both ways), is_filled, filled_count,
      volume, points, bounds, binvox export + load in every axis order.
      key:  vg=<check> tf=<transform class | plain / negscale / rotated> [enc=<base>] [in=noncubic] sym=<...>
-     (binvox round trips of non-cubic grids use a per-axis pitch that gives the three axes the same
-     extent, the one restriction the exporter documents)
+     (binvox: every axis-aligned grid is exported; the exporter may refuse - ValueError - where the extent
+     pitch * (n - 1) is not the same on the three axes or where an axis is one cell thick, otherwise the
+     reloaded grid must have the same points; `in=` carries noncubic / thin / extent_odd_<axis> /
+     extent_all_differ / tiny_unit)
+     vg=<read>@after_set_encoding view=<view class> enc=<base> sym=<...>: one grid object read, given another
+     encoding through the public setter (a flipped / transposed / reshaped view of its own, the same values
+     under another shape, another array; @after_strip: replaced by strip()), read again.
 """
 
 from __future__ import annotations
@@ -63,7 +74,13 @@ RULE = (
     "voxelgrid: arrays x base encoding x transform class (identity, translation, uniform / per-axis scale, "
     "rotation, similarity, axis mirror, two-axis flip, point mirror, mirror+rotation, shear, affine of either "
     "orientation) x check; binvox round trips on cubic grids and on non-cubic grids with a per-axis pitch of "
-    "uniform extent; trivial = empty grid or identity transform."
+    "uniform extent; trivial = empty grid or identity transform. "
+    "round 4: run-length encodings of integer arrays declared bool / uint8 (dtype option); views and compositions "
+    "over uint8 / uint16 / uint32 / uint64 counts; index sets as nested lists, uint8 / int32 index arrays, negative "
+    "entries (free gathers too); binvox export of every shape class (cubic, one odd axis in each position, all "
+    "different, one cell thick in each position) x axis-aligned transform class (uniform, one odd pitch in each "
+    "position, 1e-4 off, units 1e-9 / 1e9, mirrors): refusal or exact reload; grid histories: read, replace the "
+    "encoding (setter with a view / same values other shape / other array, strip()), read again."
 )
 ANCHORS = [
     "trimesh/voxel/runlength.py:dense_to_rle",
@@ -149,8 +166,14 @@ ASSUMPTIONS = [
     "binvox: the exporter documents 'uniform scale' (extent = pitch * (n - 1) equal on the three axes) as its "
     "only restriction: judged on cubic grids with axis-aligned uniform |pitch| and on non-cubic grids given a "
     "per-axis pitch that makes the extent uniform; RuntimeError (rotation/shear) and ValueError (non-uniform "
-    "scale) from export are accepted refusals on exactly those transform classes; a grid with an axis of "
-    "length 1 has no representable pitch and is skipped",
+    "extent, an axis of length 1: pitch * (n - 1) stores no pitch) from export are accepted refusals on exactly "
+    "those classes; an export that succeeds must reload with the same shape and points",
+    "an index with negative entries is read from the end by the dense array; a gather may refuse it with "
+    "IndexError / ValueError (the exceptions of a bad index), any other exception or another answer is a violation",
+    "a RunLengthEncoding declared with a dtype other than that of its data represents data.astype(dtype), as its "
+    "constructor documents and its `dense` returns",
+    "replacing a grid's encoding through the public setter (or strip()) makes it the grid of the new encoding: "
+    "reads made before the replacement do not count",
     "VoxelGrid.bounds is not in the statement: it is judged exactly only for axis-aligned transforms and as "
     "containment of every filled cell's corners otherwise",
 ]
@@ -160,6 +183,8 @@ COUNT_DTYPES = {"uint8": np.uint8, "uint16": np.uint16, "int64": np.int64,
                 # the other integer widths ("every integer count width"): judged on the free functions
                 "int8": np.int8, "int32": np.int32, "uint32": np.uint32, "uint64": np.uint64}
 READ_DTYPES = ("uint8", "uint16", "int64")  # count dtypes asked of run_length_data on every chain
+# what a gather may answer to an index the dense array reads from the end, besides the value
+NEGATIVE_REFUSALS = ("raised:IndexError", "raised:ValueError")
 
 
 # =============================================================================================
@@ -357,10 +382,14 @@ def check_sequence(run, runs, dnames, rng=None, level=2, only=None):
     ends = fill if fill != "mixed" else "lead%s_trail%s" % ("0" if lead == 0 else "+", "0" if trail == 0 else "+")
     dig = repr(runs) if n > 48 else "".join(map(str, seq))
 
-    def judge(fn, cls, thunk, pred, **extra):
+    def judge(fn, cls, thunk, pred, refusals=(), **extra):
         if only is not None and fn != only:
             return
         sym, detail = _outcome(thunk, pred)
+        if sym in refusals:
+            run.count("rl_refused:%s|%s" % (fn, sym))
+            run.state("rl_cell", (fn, cls, "refused"))
+            return
         run.count("rl_calls")
         run.count("rl:%s|%s" % (fn, sym))
         run.state("rl_cell", (fn, cls, sym))
@@ -494,6 +523,25 @@ def check_sequence(run, runs, dnames, rng=None, level=2, only=None):
                         judge("sorted_%s_gather_1d" % prefix, gc, lambda: list(fns[2](data.copy(), ind)),
                               lambda g: [int(x) for x in g] == exp, **ex2)
 
+        def negative_gathers(prefix, data, vname, fns):
+            # indices the dense array reads from the end ("equivalent to rle_to_dense(data)[indices]"): a
+            # streaming gather may refuse them (IndexError / ValueError), it may not answer something else.
+            # The sign of an index is independent of the count width: judged on short inputs, three dtypes.
+            if level < 2 or wbare != "short" or wsfx or n < 2 or vname != "split":
+                return
+            for icls, idx in (("negative", [-1, 0, -n, n - 1, -(n // 2) - 1]), ("negative_sorted", [-n, -1, 0, n - 1])):
+                exp = [seq[i] for i in idx]
+                ind = np.array(idx, dtype=np.int64)
+                gc = "idx=array,%s" % icls
+                ex2 = {"dtype": dname, "variant": vname, "idx": idx, "idx_kind": "array", "dk": ("array", icls)}
+                pg = lambda g: np.asarray(g).shape == (len(idx),) and [int(x) for x in g] == exp  # noqa: E731
+                run.state("rl_index_class", ("array", icls))
+                judge(prefix + "_gather_1d", gc, lambda: fns[0](data.copy(), ind), pg, refusals=NEGATIVE_REFUSALS, **ex2)
+                judge(prefix + "_gatherer_1d", gc, lambda: fns[1](ind)(data.copy()), pg, refusals=NEGATIVE_REFUSALS, **ex2)
+                if _is_sorted(idx):
+                    judge("sorted_%s_gather_1d" % prefix, gc, lambda: list(fns[2](data.copy(), ind)),
+                          lambda g: [int(x) for x in g] == exp, refusals=NEGATIVE_REFUSALS, **ex2)
+
         # ---- functions taking RLE data
         for vname, form, rle_list in variants:
             rle = np.array(rle_list, dtype=dt if binary else np.int64)
@@ -523,6 +571,8 @@ def check_sequence(run, runs, dnames, rng=None, level=2, only=None):
             )
             gathers("rle", rle, vname, form,
                     (lambda d, i: rl.rle_gather_1d(d, i, dtype=vdt), rl.rle_gatherer_1d, rl.sorted_rle_gather_1d))
+            negative_gathers("rle", rle, vname,
+                             (lambda d, i: rl.rle_gather_1d(d, i, dtype=vdt), rl.rle_gatherer_1d, rl.sorted_rle_gather_1d))
             for mcls, mask in msets:
                 judge("rle_mask", "mask=%s,%s" % (mcls, width),
                       lambda: list(rl.rle_mask(rle.copy(), np.array(mask, dtype=bool))),
@@ -550,6 +600,7 @@ def check_sequence(run, runs, dnames, rng=None, level=2, only=None):
             judge("brle_to_sparse", "%s,%s" % (fill, width), lambda: rl.brle_to_sparse(brle.copy()),
                   lambda g: np.asarray(g).ndim == 1 and [int(x) for x in np.asarray(g).tolist()] == nz_idx, **ex)
             gathers("brle", brle, vname, form, (rl.brle_gather_1d, rl.brle_gatherer_1d, rl.sorted_brle_gather_1d))
+            negative_gathers("brle", brle, vname, (rl.brle_gather_1d, rl.brle_gatherer_1d, rl.sorted_brle_gather_1d))
             for mcls, mask in msets:
                 judge("brle_mask", "mask=%s,%s" % (mcls, width),
                       lambda: list(rl.brle_mask(brle.copy(), np.array(mask, dtype=bool))),
@@ -674,7 +725,8 @@ def part_runlength(run, frac_end):
 
 READS_ALL = (
     "dense", "shape", "size", "sum", "is_empty", "sparse_indices", "sparse_values", "gather_nd",
-    "gather_nd:single", "gather:array", "gather:list", "mask", "get_value", "stripped", "copy",
+    "gather_nd:single", "gather_nd:list", "gather_nd:idx_uint8", "gather_nd:idx_int32", "gather_nd:negative",
+    "gather:array", "gather:list", "gather:negative", "mask", "get_value", "stripped", "copy",
     "run_length_data", "binary_run_length_data",
 )
 
@@ -702,7 +754,10 @@ def chain_of(e):
     if isinstance(e, E.RunLengthEncoding):
         name = "BRLE" if isinstance(e, E.BinaryRunLengthEncoding) else "RLE"
         dt = np.asarray(e._data).dtype
-        return name if dt.itemsize >= 8 else "%s[%s]" % (name, dt.name)
+        # int64 counts are the plain class; narrower counts and unsigned 64 bit (np.uint64 with a python int
+        # or an int64 promotes to float64) carry their dtype
+        # (float64 data is what joining uint64 counts with signed values or python ints produces)
+        return name if dt == np.int64 else "%s[%s]" % (name, dt.name)
     if isinstance(e, E.SparseEncoding):
         return "Sparse" if e.sparse_indices.shape[-1] == 3 else "Sparse@%dd" % e.sparse_indices.shape[-1]
     if isinstance(e, E.DenseEncoding):
@@ -710,8 +765,24 @@ def chain_of(e):
     return type(e).__name__
 
 
-def build_base(base, X, cdtype="int64"):
-    """base encoding representing X (no view applied)"""
+ARG_FORM_READS = ("gather_nd:list", "gather_nd:idx_uint8", "gather_nd:idx_int32", "gather_nd:negative",
+                  "gather:negative")
+
+
+def _outer_label(e):
+    from trimesh.voxel import encoding as E
+
+    if isinstance(e, E.LazyIndexMap):
+        return type(e).__name__.replace("Encoding", "") + "(*)"
+    return chain_of(e).split("[")[0].split("@")[0]
+
+
+def build_base(base, X, cdtype="int64", as_dtype=None):
+    """
+    base encoding representing X (no view applied).  `as_dtype` (RLE only): the run-length data holds the
+    values of X, the encoding is declared with another dtype ("each second value of data is cast to this
+    dtype"): it represents X.astype(as_dtype).
+    """
     from trimesh.voxel import encoding as E
 
     X = np.array(X)  # private copy
@@ -721,7 +792,8 @@ def build_base(base, X, cdtype="int64"):
         return E.SparseEncoding.from_dense(X)
     flat = X.reshape(-1)
     if base == "RLE":
-        e = E.RunLengthEncoding.from_dense(flat, dtype=X.dtype, encoding_dtype=COUNT_DTYPES[cdtype])
+        e = E.RunLengthEncoding.from_dense(flat, dtype=X.dtype if as_dtype is None else np.dtype(as_dtype),
+                                           encoding_dtype=COUNT_DTYPES[cdtype])
     elif base == "BRLE":
         e = E.BinaryRunLengthEncoding.from_dense(flat, encoding_dtype=COUNT_DTYPES[cdtype])
     else:
@@ -825,7 +897,7 @@ def read_battery(run, enc, X, recipe, rng=None, only=None, marks="", label=None,
                               digest_size=12).digest(),)
     seen = {}
 
-    def cell(read, thunk, pred, sub=None, **extra):
+    def cell(read, thunk, pred, sub=None, refusals=(), **extra):
         if only is not None and read != only:
             return None
         if light and read not in LIGHT_READS:
@@ -834,6 +906,11 @@ def read_battery(run, enc, X, recipe, rng=None, only=None, marks="", label=None,
         base_read = read
         read = rfmt % read
         sym, detail = _outcome(thunk, pred)
+        if sym in refusals:
+            # an input class the encoding may refuse (loudly, with the exception of a bad index)
+            run.count("enc_refused:%s|%s" % (base_read, sym))
+            run.state("cell", (label, read, "refused"))
+            return "refused"
         plain_label = None
         if sym != "ok" and fresh is not None:
             # is it the history, or is the plain cell broken?  the same read on a never-read object
@@ -864,8 +941,12 @@ def read_battery(run, enc, X, recipe, rng=None, only=None, marks="", label=None,
             case = {"part": "enc", "array": _pack(X if source is None else source), "recipe": recipe, "read": read,
                     "chain": lab, "sub": sub, "observed": detail}
             case.update(extra)
+            # the form of the index argument (list, other integer dtype, negative entries) is dealt with by
+            # the layer that first touches it: the key carries the outermost class only, the symptom tells the
+            # layers apart (the full chain is in the witness and in the table counters)
+            klab = _outer_label(enc) if base_read in ARG_FORM_READS else lab
             run.violation(
-                "enc=%s read=%s%s sym=%s" % (lab, read, " in=empty" if nzcount == 0 and base_read in EMPTY_READS else "", sym),
+                "enc=%s read=%s%s sym=%s" % (klab, read, " in=empty" if nzcount == 0 and base_read in EMPTY_READS else "", sym),
                 "%s.%s does not answer like the dense array it represents" % (lab, read.split(":")[0]),
                 case,
             )
@@ -922,20 +1003,46 @@ def read_battery(run, enc, X, recipe, rng=None, only=None, marks="", label=None,
     cell("sparse_values", lambda: enc.sparse_values, p_sv)
 
     if X.size:
+        gathers_ok = True  # the plain int64-array gathers of this object all answered right
         isets = nd_index_sets(X.shape, rng)
         for icls, idx in ([s for s in isets if len(s[1]) > 1][:1] if light else isets):
             exp = X[tuple(idx.T)]
             k = len(idx)
             read = "gather_nd:single" if k == 1 else "gather_nd"
             run.state("index_class", (read, icls))
-            cell(read, lambda: enc.gather_nd(idx.copy()), lambda g: same(g, exp), sub=(icls, idx), idx=idx,
-                 idx_class=icls)
+            r = cell(read, lambda: enc.gather_nd(idx.copy()), lambda g: same(g, exp), sub=(icls, idx), idx=idx,
+                     idx_class=icls)
+            gathers_ok = gathers_ok and r in ("ok", None)
             if nd == 1 and hasattr(enc, "gather"):
                 flat = idx[:, 0]
-                cell("gather:array", lambda: enc.gather(flat.copy()), lambda g: same(g, exp), sub=(icls, idx),
-                     idx=flat, idx_class=icls)
+                r = cell("gather:array", lambda: enc.gather(flat.copy()), lambda g: same(g, exp), sub=(icls, idx),
+                         idx=flat, idx_class=icls)
+                gathers_ok = gathers_ok and r in ("ok", None)
                 cell("gather:list", lambda: enc.gather([int(i) for i in flat]), lambda g: same(g, exp),
                      sub=(icls, idx), idx=flat, idx_class=icls)
+        if not light and not gathers_ok:
+            run.count("enc_index_forms_not_judged_gather_broken")  # nothing to learn from the form of the argument
+        if not light and gathers_ok:
+            # the same index set in the other forms the quantifier names ("list or array"): a nested python
+            # list, an index array of another integer dtype; and with negative entries, which the dense array
+            # reads from the end: an encoding may refuse them (IndexError / ValueError), it may not answer
+            # something else
+            icls, idx = ([s_ for s_ in isets if len(s_[1]) > 1] or isets)[0]
+            exp = X[tuple(idx.T)]
+            cell("gather_nd:list", lambda: enc.gather_nd(idx.tolist()), lambda g: same(g, exp), sub=(icls, idx),
+                 idx=idx, idx_class=icls)
+            if int(idx.max()) < 128:
+                for dn in ("uint8", "int32"):
+                    cell("gather_nd:idx_" + dn, lambda: enc.gather_nd(idx.astype(dn)), lambda g: same(g, exp),
+                         sub=(icls, idx), idx=idx, idx_class=icls)
+            neg = idx.copy()
+            wrap = (np.indices(neg.shape).sum(axis=0) % 2 == 0)
+            neg[wrap] -= np.broadcast_to(np.array(X.shape, dtype=np.int64), neg.shape)[wrap]
+            cell("gather_nd:negative", lambda: enc.gather_nd(neg.copy()), lambda g: same(g, X[tuple(neg.T)]),
+                 sub=(icls, neg), idx=neg, idx_class=icls, refusals=NEGATIVE_REFUSALS)
+            if nd == 1 and hasattr(enc, "gather"):
+                cell("gather:negative", lambda: enc.gather(neg[:, 0].copy()), lambda g: same(g, X[neg[:, 0]]),
+                     sub=(icls, neg), idx=neg[:, 0], idx_class=icls, refusals=NEGATIVE_REFUSALS)
         for mcls, m in nd_masks(X, rng)[: 1 if light else None]:
             exp = X[m]
             run.state("mask_class", mcls)
@@ -1011,10 +1118,15 @@ def _unpack(d):
 
 def _build(recipe, X, nops=None):
     """(encoding, reference array, marks, stages) of the first `nops` view steps of a recipe"""
-    marks = ""
     stages = []
-    enc = build_base(recipe["base"], X, recipe.get("cdtype", "int64"))
+    as_dtype = recipe.get("as")
+    enc = build_base(recipe["base"], X, recipe.get("cdtype", "int64"), as_dtype)
     ref = np.array(X)
+    marks = ""
+    if as_dtype is not None:
+        # the run-length data holds the values of X, the encoding is declared with another dtype
+        ref = ref.astype(np.dtype(as_dtype))
+        marks = "{as=%s}" % np.dtype(as_dtype).name
     ops = recipe["ops"] if nops is None else recipe["ops"][:nops]
     for op in ops:
         before = enc
@@ -1122,14 +1234,77 @@ def _shape_after(shape, op):
     return tuple(shape)
 
 
-def recipes_for(X, level=2):
+UNSIGNED_COUNTS = ("uint8", "uint16", "uint32", "uint64")
+
+
+def unsigned_count_recipes(X, singles):
+    """
+    Views and compositions of views over run-length data with unsigned counts (uint8 is what every binvox
+    file holds; the size of such an encoding is a np.uint64, and np.uint64 with a python int or an int64
+    promotes to float64): every reshape / flat / one transpose, each followed by flip and by flat, flat
+    followed by flip (what `grid.encoding.flat.flip(0)` builds on a loaded grid), the exporter's route
+    flip -> transpose -> flat, and the eager flip of the 1-D encoding.
+    """
+    out = []
+    nd = X.ndim
+    firsts = [o for o in singles if o[0] in ("reshape", "flat")] + [o for o in singles if o[0] == "transpose"][:1]
+    for cd in UNSIGNED_COUNTS:
+        full = cd in ("uint8", "uint64")  # the narrowest and the one that promotes to float; the others: RLE, fewer views
+        for base in ("RLE", "BRLE") if (X.dtype == bool and full) else ("RLE",):
+            if cd != "uint8":
+                out.append({"base": base, "cdtype": cd, "ops": []})
+            for op1 in firsts if full else [o for o in firsts if o[0] == "flat"] + firsts[:1]:
+                if cd != "uint8":
+                    out.append({"base": base, "cdtype": cd, "ops": [op1]})  # uint8: built for every array
+                s1 = _shape_after(X.shape, op1)
+                out.append({"base": base, "cdtype": cd, "ops": [op1, ["flip", [0]]]})
+                if len(s1) > 1:
+                    out.append({"base": base, "cdtype": cd, "ops": [op1, ["flip", [len(s1) - 1]]]})
+                    out.append({"base": base, "cdtype": cd, "ops": [op1, ["flat"]]})
+                    out.append({"base": base, "cdtype": cd, "ops": [op1, ["flat"], ["flip", [0]]]})
+            out.append({"base": base, "cdtype": cd, "ops": [["flip", [0]]]})
+            if nd == 3 and full:
+                out.append({"base": base, "cdtype": cd,
+                            "ops": [["flip", [0, 2]], ["transpose", [0, 2, 1]], ["flat"]]})
+    return out
+
+
+def declared_dtype_recipes(X, singles):
+    """
+    RunLengthEncoding(data, dtype=...): "dtype of encoded data. Each second value of data is cast to this
+    dtype": integer valued run-length data declared bool (an occupancy view of a label volume) or declared
+    with a narrower integer (values wrap; a stored non-zero value can read as zero).  The reference array is
+    X.astype(dtype).
+    """
+    out = []
+    if X.dtype.kind not in "iu":
+        return out
+    decl = ["bool"] + (["uint8"] if X.size and int(X.max()) > 255 else [])
+    # the lazy views hand sum / emptiness / filled values on to what they wrap: the bare encoding (for an N-D
+    # array that is Shaped(RLE)) and the one step that builds a new run-length encoding, the flip of a 1-D one
+    for as_dtype in decl:
+        cd = "uint8" if X.dtype.itemsize == 1 else "int64"  # narrow values: values and counts share the narrow array
+        out.append({"base": "RLE", "cdtype": cd, "as": as_dtype, "ops": []})
+        if X.ndim == 1 and as_dtype == "bool" and cd == "int64":
+            out.append({"base": "RLE", "cdtype": cd, "as": as_dtype, "ops": [["flip", [0]]]})
+    return out
+
+
+def recipes_for(X, level=2, extra=False):
     """
     level 0: base encodings only; 1: + every single view; 2: + two-view compositions (lazy views
     exist through the public API only on Sparse and on reshaped RLE, so compositions are built
     there) and the binvox exporter's route flip -> transpose -> flat.
+    extra: + views and compositions over every unsigned count dtype.
+    Integer valued arrays always get the run-length encodings with a declared dtype of their own.
     """
     out = []
     nd = X.ndim
+    if X.size:
+        singles_ = single_views(X.shape)
+        out += declared_dtype_recipes(X, singles_)
+        if extra and level >= 1:
+            out += unsigned_count_recipes(X, singles_)
     bases = [("Dense", "int64"), ("RLE", "int64")]
     if nd == 3 or (nd == 2 and X.size <= 30):
         bases.append(("Sparse", "int64"))
@@ -1239,6 +1414,13 @@ def enumerated_arrays():
     out.append(("3d:6x10x10:u8_runs", u8.reshape(6, 10, 10)))
     out.append(("3d:2x3x4:u8", (np.arange(24).reshape(2, 3, 4) * 7 % 4).astype(np.uint8)))
     out.append(("1d:9:i16", np.array([0, 2, 2, 0, 1, 3, 3, 3, 0], dtype=np.int16)))
+    # values beyond a narrower declared dtype: 256 reads as 0 and 513 as 1 when declared uint8
+    wide = np.array([0, 300, 300, 0, 256, 256, 2, 0, 513, 513, 513, 0], dtype=np.int64)
+    out.append(("1d:12:wide", wide))
+    out.append(("3d:2x3x2:wide", wide.reshape(2, 3, 2)))
+    out.append(("1d:4:wide_reads_empty", np.array([256, 256, 0, 512], dtype=np.int64)))
+    out.append(("1d:4:int_zeros", np.zeros(4, dtype=np.int64)))
+    out.append(("3d:2x2x2:int_zeros", np.zeros((2, 2, 2), dtype=np.int64)))
     # runs longer than uint8 counts: 7x8x9 = 504 full / nearly full, 1-D 600
     big = np.ones((7, 8, 9), dtype=bool)
     out.append(("3d:7x8x9:full", big))
@@ -1279,6 +1461,10 @@ def random_array(rng):
     return "rand:bool", rng.random(shape) < dens
 
 
+# arrays that also get the views / compositions over every unsigned count dtype (non-cubic, cubic, 2-D, 1-D,
+# 1-D with runs beyond uint8)
+EXTRA_TAGS = ("3d:2x3x4:mod3", "3d:2x2x2:hollow_ends", "3d:3x3x3:three", "2d:3x4:mod3", "1d:8:mod3", "1d:600:half",
+              "3d:1x3x2:mod3", "3d:2x3x4:empty", "1d:8:empty", "1d:9:int", "3d:2x3x4:int", "3d:2x2x2:int_zeros", "1d:4:int_zeros")
 NO_HISTORY = ("empty", "full", "corner0", "corner1", "single", "last_only", "checker")
 
 
@@ -1286,18 +1472,23 @@ def part_encodings(run, frac_end):
     item = 0
     arrays = enumerated_arrays()
     run.note("enc_enumerated_arrays", len(arrays))
+    # a time-boxed run reads the arrays that carry the most classes first: the ones with the unsigned-count
+    # compositions, then the integer valued ones (declared dtypes), then the rest in the order of the list
+    arrays.sort(key=lambda t: 0 if t[0] in EXTRA_TAGS else 1 if t[1].dtype.kind in "iu" else 2)
     deep = {(2, 3, 4): ("mod3", "checker", "hollow_ends", "empty", "three"),
             (2, 2, 2): ("mod3", "hollow_ends", "corner1", "int_full", "three"),
             (3, 3, 3): ("mod3", "hollow_ends", "three"), (1, 3, 2): ("mod3",)}
     for tag, X in arrays:
         two = X.ndim == 3 and tag.split(":")[-1] in deep.get(X.shape, ())
-        for rec in recipes_for(X, 2 if two else 1):
+        for rec in recipes_for(X, 2 if two else 1, extra=tag in EXTRA_TAGS):
             item += 1
             if not run.mine(item):
                 continue
             run.state("array_class", tag.split(":")[0] + ":" + tag.split(":")[-1])
             # read histories where a disturbed state can show: arrays that no flip / transpose maps to itself
-            run_recipe(run, X, rec, history=0 if tag.split(":")[-1] in NO_HISTORY else 1)
+            # (the views over the other unsigned count widths are read once: their histories are those of uint8)
+            wide_counts = rec.get("cdtype") in UNSIGNED_COUNTS[1:] or (rec.get("cdtype") == "uint8" and len(rec["ops"]) > 1)
+            run_recipe(run, X, rec, history=0 if (tag.split(":")[-1] in NO_HISTORY or wide_counts) else 1)
         if run.out_of_time(frac_end * 0.97):
             run.count("enc_enumeration_cut_short")
             break
@@ -1305,7 +1496,7 @@ def part_encodings(run, frac_end):
     # random arrays
     while not run.out_of_time(frac_end):
         tag, X = random_array(run.rng)
-        recs = recipes_for(X, 2 if X.size <= 40 else 1)
+        recs = recipes_for(X, 2 if X.size <= 40 else 1, extra=X.size <= 40)
         for i in run.rng.permutation(len(recs))[:16]:
             run.state("array_class", tag)
             run_recipe(run, X, recs[int(i)], rng=run.rng)
@@ -1386,7 +1577,12 @@ def grid_arrays(rng):
     return out
 
 
-def check_grid(run, X, base, cdtype, tcls, Mx, aligned, uniform, rng=None, only=None):
+def check_grid(run, X, base, cdtype, tcls, Mx, aligned, uniform, rng=None, only=None, labels=False,
+               binvox_only=False):
+    """
+    labels: the grid's encoding is run-length data of a label volume (0 empty, 1..3 material) declared bool,
+    an occupancy view (base RLE only).  binvox_only: only the export / reload checks.
+    """
     import trimesh
     from trimesh.exchange import binvox
     from trimesh.voxel.base import VoxelGrid
@@ -1398,11 +1594,16 @@ def check_grid(run, X, base, cdtype, tcls, Mx, aligned, uniform, rng=None, only=
     tsize = max(1.0, float(np.abs(Mx[:3, 3]).max()))
     cubic = len(set(X.shape)) == 1
     ename = base if cdtype == "int64" or base in ("Dense", "Sparse") else "%s[%s]" % (base, cdtype)
+    XL = X
+    if labels:
+        XL = X * (1 + np.arange(X.size).reshape(X.shape) % 3)
+        ename += "{as=bool}"
     # coarse transform group for the checks that go through the encoding
     grp = ("negscale" if (np.diag(L) < 0).any() else "plain") if aligned else "rotated"
 
     def mk(M=None):
-        return VoxelGrid(build_base(base, X, cdtype), transform=(Mx if M is None else M).copy())
+        return VoxelGrid(build_base(base, XL, cdtype, "bool" if labels else None),
+                         transform=(Mx if M is None else M).copy())
 
     def vcheck(name, thunk, pred, key, refusals=(), **extra):
         if only is not None and name != only:
@@ -1419,7 +1620,8 @@ def check_grid(run, X, base, cdtype, tcls, Mx, aligned, uniform, rng=None, only=
         run.case("vg:" + name, name, tcls, ename, X, Mx, nontrivial=bool(X.any()) and tcls != "identity")
         if sym != "ok":
             case = {"part": "vg", "check": name, "array": _pack(X), "base": base, "cdtype": cdtype,
-                    "tf_class": tcls, "matrix": Mx, "aligned": aligned, "uniform": uniform, "observed": detail}
+                    "tf_class": tcls, "matrix": Mx, "aligned": aligned, "uniform": uniform, "observed": detail,
+                    "labels": labels, "binvox_only": binvox_only}
             case.update(extra)
             run.violation(
                 "vg=%s %s sym=%s" % (name, key, sym),
@@ -1431,135 +1633,300 @@ def check_grid(run, X, base, cdtype, tcls, Mx, aligned, uniform, rng=None, only=
     k_tf = "tf=%s" % tcls  # checks that only involve the transform
     k_enc = "tf=%s enc=%s" % (grp, ename)  # checks that read the encoding
 
-    allidx = np.argwhere(np.ones(X.shape, bool)).astype(np.int64)
-    extra_idx = np.array([[-1, 0, 0], [0, -2, 5], [X.shape[0], X.shape[1], X.shape[2]], [9, -7, 3]], dtype=np.int64)
-    I = np.vstack([allidx, extra_idx])
-    exp_pts = I.astype(float) @ L.T + Mx[:3, 3]
-    atol = 1e-9 * (scale * 12 + tsize)
+    def maps_and_reads():
+        allidx = np.argwhere(np.ones(X.shape, bool)).astype(np.int64)
+        extra_idx = np.array([[-1, 0, 0], [0, -2, 5], [X.shape[0], X.shape[1], X.shape[2]], [9, -7, 3]], dtype=np.int64)
+        I = np.vstack([allidx, extra_idx])
+        exp_pts = I.astype(float) @ L.T + Mx[:3, 3]
+        atol = 1e-9 * (scale * 12 + tsize)
 
-    vcheck("indices_to_points", lambda: mk().indices_to_points(I.copy()),
-           lambda g: np.asarray(g).shape == exp_pts.shape and np.allclose(g, exp_pts, rtol=0, atol=atol), k_tf)
+        vcheck("indices_to_points", lambda: mk().indices_to_points(I.copy()),
+               lambda g: np.asarray(g).shape == exp_pts.shape and np.allclose(g, exp_pts, rtol=0, atol=atol), k_tf)
 
-    def there_and_back():
-        vg = mk()
-        return vg.points_to_indices(vg.indices_to_points(I.copy()))
-
-    vcheck("points_to_indices_of_indices_to_points", there_and_back,
-           lambda g: np.asarray(g).shape == I.shape and np.asarray(g).dtype.kind in "iu" and np.array_equal(g, I), k_tf)
-    # points strictly inside cells (|offset| <= 0.4 in index space) map to that cell
-    off = (np.indices((len(I), 3)).sum(axis=0) % 5 - 2) * 0.2
-    P = (I + off) @ L.T + Mx[:3, 3]
-    vcheck("points_to_indices", lambda: mk().points_to_indices(P.copy()), lambda g: np.array_equal(g, I), k_tf)
-
-    def back_to_centres():
-        vg = mk()
-        return vg.indices_to_points(vg.points_to_indices(P.copy()))
-
-    vcheck("indices_to_points_of_points_to_indices", back_to_centres,
-           lambda g: np.allclose(g, exp_pts, rtol=0, atol=atol), k_tf)
-    inside = np.all((I >= 0) & (I < np.array(X.shape)), axis=1)
-    exp_f = np.zeros(len(I), dtype=bool)
-    exp_f[inside] = X[tuple(I[inside].T)]
-    vcheck("is_filled", lambda: mk().is_filled(P.copy()),
-           lambda g: np.asarray(g).shape == exp_f.shape and np.array_equal(np.asarray(g).astype(bool), exp_f), k_enc)
-    # ---- the same maps on ONE grid object across a move: query (this caches the inverse
-    # transform), move the grid, query again.  The expected values come from the moved matrix.
-    for kind in ("apply_translation", "apply_transform:translation", "apply_scale", "apply_transform:rigid"):
-        tvec = np.array([0.75, -1.5, 2.25]) * max(scale, 1e-9)
-        if kind == "apply_scale":
-            T = np.diag([2.0, 2.0, 2.0, 1.0])
-        elif kind == "apply_transform:rigid":
-            T = trimesh.transformations.rotation_matrix(0.4, [0.2, -0.5, 0.8], point=[0.1, 0.2, 0.3])
-        else:
-            T = trimesh.transformations.translation_matrix(tvec)
-        M2 = T @ Mx
-        P2 = (I + off) @ M2[:3, :3].T + M2[:3, 3]
-        exp2 = I.astype(float) @ M2[:3, :3].T + M2[:3, 3]
-        atol2 = 1e-9 * (np.abs(M2[:3, :3]).max() * 12 + max(1.0, float(np.abs(M2[:3, 3]).max())))
-
-        def moved(kind=kind, T=T, P2=P2, tvec=tvec):
+        def there_and_back():
             vg = mk()
-            vg.is_filled(P.copy())
-            vg.points_to_indices(P.copy())
-            if kind == "apply_translation":
-                vg.apply_translation(tvec)
-            elif kind == "apply_scale":
-                vg.apply_scale(2.0)
+            return vg.points_to_indices(vg.indices_to_points(I.copy()))
+
+        vcheck("points_to_indices_of_indices_to_points", there_and_back,
+               lambda g: np.asarray(g).shape == I.shape and np.asarray(g).dtype.kind in "iu" and np.array_equal(g, I), k_tf)
+        # points strictly inside cells (|offset| <= 0.4 in index space) map to that cell
+        off = (np.indices((len(I), 3)).sum(axis=0) % 5 - 2) * 0.2
+        P = (I + off) @ L.T + Mx[:3, 3]
+        vcheck("points_to_indices", lambda: mk().points_to_indices(P.copy()), lambda g: np.array_equal(g, I), k_tf)
+
+        def back_to_centres():
+            vg = mk()
+            return vg.indices_to_points(vg.points_to_indices(P.copy()))
+
+        vcheck("indices_to_points_of_points_to_indices", back_to_centres,
+               lambda g: np.allclose(g, exp_pts, rtol=0, atol=atol), k_tf)
+        inside = np.all((I >= 0) & (I < np.array(X.shape)), axis=1)
+        exp_f = np.zeros(len(I), dtype=bool)
+        exp_f[inside] = X[tuple(I[inside].T)]
+        vcheck("is_filled", lambda: mk().is_filled(P.copy()),
+               lambda g: np.asarray(g).shape == exp_f.shape and np.array_equal(np.asarray(g).astype(bool), exp_f), k_enc)
+        # ---- the same maps on ONE grid object across a move: query (this caches the inverse
+        # transform), move the grid, query again.  The expected values come from the moved matrix.
+        for kind in ("apply_translation", "apply_transform:translation", "apply_scale", "apply_transform:rigid"):
+            tvec = np.array([0.75, -1.5, 2.25]) * max(scale, 1e-9)
+            if kind == "apply_scale":
+                T = np.diag([2.0, 2.0, 2.0, 1.0])
+            elif kind == "apply_transform:rigid":
+                T = trimesh.transformations.rotation_matrix(0.4, [0.2, -0.5, 0.8], point=[0.1, 0.2, 0.3])
             else:
-                vg.apply_transform(T.copy())
-            return (np.asarray(vg.points_to_indices(P2.copy())), np.asarray(vg.is_filled(P2.copy())).astype(bool),
-                    np.asarray(vg.indices_to_points(I.copy())))
+                T = trimesh.transformations.translation_matrix(tvec)
+            M2 = T @ Mx
+            P2 = (I + off) @ M2[:3, :3].T + M2[:3, 3]
+            exp2 = I.astype(float) @ M2[:3, :3].T + M2[:3, 3]
+            atol2 = 1e-9 * (np.abs(M2[:3, :3]).max() * 12 + max(1.0, float(np.abs(M2[:3, 3]).max())))
 
-        vcheck("query_move_query:" + kind, moved,
-               lambda g, exp2=exp2, atol2=atol2: np.array_equal(g[0], I) and np.array_equal(g[1], exp_f)
-               and np.allclose(g[2], exp2, rtol=0, atol=atol2), k_tf)
-    cellvol = abs(np.linalg.det(L))
+            def moved(kind=kind, T=T, P2=P2, tvec=tvec):
+                vg = mk()
+                vg.is_filled(P.copy())
+                vg.points_to_indices(P.copy())
+                if kind == "apply_translation":
+                    vg.apply_translation(tvec)
+                elif kind == "apply_scale":
+                    vg.apply_scale(2.0)
+                else:
+                    vg.apply_transform(T.copy())
+                return (np.asarray(vg.points_to_indices(P2.copy())), np.asarray(vg.is_filled(P2.copy())).astype(bool),
+                        np.asarray(vg.indices_to_points(I.copy())))
+
+            vcheck("query_move_query:" + kind, moved,
+                   lambda g, exp2=exp2, atol2=atol2: np.array_equal(g[0], I) and np.array_equal(g[1], exp_f)
+                   and np.allclose(g[2], exp2, rtol=0, atol=atol2), k_tf)
+        cellvol = abs(np.linalg.det(L))
+        nfill = int(X.sum())
+        vcheck("filled_count", lambda: mk().filled_count, lambda g: int(g) == nfill, k_enc)
+        vcheck("volume", lambda: mk().volume,
+               lambda g: np.ndim(g) == 0 and abs(float(g) - nfill * cellvol) <= 1e-9 * nfill * cellvol,
+               k_enc if labels else k_tf)
+        if nfill:
+            exp_c = np.argwhere(X).astype(float) @ L.T + Mx[:3, 3]
+            vcheck("points", lambda: mk().points, lambda g: _same_point_set(g, exp_c, atol), k_enc)
+            # bounds: corners of every filled cell
+            corners = np.array(list(itertools.product((-0.5, 0.5), repeat=3)))
+            cc = (np.argwhere(X)[:, None, :] + corners[None]).reshape(-1, 3) @ L.T + Mx[:3, 3]
+            lo, hi = cc.min(axis=0), cc.max(axis=0)
+            if aligned:
+                vcheck("bounds", lambda: mk().bounds, lambda g: np.allclose(g, [lo, hi], rtol=0, atol=atol), k_enc)
+            else:
+                vcheck("bounds", lambda: mk().bounds,
+                       lambda g: np.all(np.asarray(g)[0] <= lo + atol) and np.all(np.asarray(g)[1] >= hi - atol), k_enc)
+
+
     nfill = int(X.sum())
-    vcheck("filled_count", lambda: mk().filled_count, lambda g: int(g) == nfill, k_enc)
-    vcheck("volume", lambda: mk().volume,
-           lambda g: np.ndim(g) == 0 and abs(float(g) - nfill * cellvol) <= 1e-9 * nfill * cellvol, k_tf)
-    if nfill:
-        exp_c = np.argwhere(X).astype(float) @ L.T + Mx[:3, 3]
-        vcheck("points", lambda: mk().points, lambda g: _same_point_set(g, exp_c, atol), k_enc)
-        # bounds: corners of every filled cell
-        corners = np.array(list(itertools.product((-0.5, 0.5), repeat=3)))
-        cc = (np.argwhere(X)[:, None, :] + corners[None]).reshape(-1, 3) @ L.T + Mx[:3, 3]
-        lo, hi = cc.min(axis=0), cc.max(axis=0)
-        if aligned:
-            vcheck("bounds", lambda: mk().bounds, lambda g: np.allclose(g, [lo, hi], rtol=0, atol=atol), k_enc)
+    atol = 1e-9 * (scale * 12 + tsize)
+    if not binvox_only:
+        maps_and_reads()
+
+    # ---- binvox.  The file stores ONE scale, the extent pitch * (n - 1) of the grid, and the exporter documents
+    # one restriction: ValueError "Can only export binvox with uniform scale" (extent equal on the three axes).
+    # So for every axis-aligned grid: either the export refuses (accepted exactly where the extent is not
+    # uniform, or - no pitch is representable - where an axis is one cell thick), or the reloaded grid has the
+    # same shape and the same points.  Export variants of one (array, transform):
+    #   the transform as it is (cubic or not: `in=` carries noncubic / thin / which axis has the odd extent);
+    #   non-cubic grids also with a per-axis pitch that makes the extent of every axis longer than one cell uniform
+    thin = min(X.shape) == 1
+    variants = []
+    if thin and not binvox_only:
+        run.skip("binvox: grid one cell thick - judged in the fixed classes of part_voxelgrid_first")
+    elif aligned:
+        variants.append(Mx)
+        if not cubic and uniform:
+            Mb = Mx.copy()
+            extent = abs(Mx[0, 0]) * (max(X.shape) - 1)
+            for a in range(3):
+                Mb[a, a] = np.sign(Mx[a, a]) * extent / max(X.shape[a] - 1, 1)
+            variants.append(Mb)
+    elif cubic and not thin:
+        variants.append(Mx)  # rotation / shear: a documented RuntimeError, judged if it answers
+    else:
+        run.skip("binvox: non-cubic or thin grid with a transform that is not axis aligned")
+    for Mb in variants:
+        Lb = Mb[:3, :3]
+        tags = ([] if cubic else ["noncubic"]) + (["thin"] if thin else [])
+        refusals = set()
+        if not aligned:
+            refusals.add("raised:RuntimeError")  # Transform.scale documents this for rotation / shear
         else:
-            vcheck("bounds", lambda: mk().bounds,
-                   lambda g: np.all(np.asarray(g)[0] <= lo + atol) and np.all(np.asarray(g)[1] >= hi - atol), k_enc)
+            ext = np.abs(np.diag(Lb)) * (np.array(X.shape) - 1)
+            close = lambda a, b: abs(a - b) <= 1e-9 * max(abs(a), abs(b))  # noqa: E731
+            eq = (close(ext[1], ext[2]), close(ext[0], ext[2]), close(ext[0], ext[1]))  # pair that leaves x / y / z out
+            if not all(eq):
+                # "Can only export binvox with uniform scale"
+                tags.append("extent_odd_" + "xyz"[eq.index(True)] if any(eq) else "extent_all_differ")
+                refusals |= {"raised:ValueError", "raised:RuntimeError"}
+            if thin:
+                refusals.add("raised:ValueError")  # pitch * (n - 1) is zero whatever the pitch
+            if float((np.abs(np.diag(Lb)) * np.maximum(np.array(X.shape) - 1, 1)).max()) < 1e-6:
+                tags.append("tiny_unit")  # where an absolute 1e-8 is not small
+        incls = (" in=" + ",".join(tags)) if tags else ""
+        exp_c = np.argwhere(X).astype(float) @ Lb.T + Mb[:3, 3]
+        # header floats are written with repr(): exact; pitch = scale / (n - 1).  Relative to the grid's own unit
+        pmin = float(np.abs(np.diag(Lb)).min()) if aligned else scale
+        ptol = 1e-8 * (float(np.abs(Lb).max()) * 12 + float(np.abs(Mb[:3, 3]).max())) + 8e-6 * pmin
 
-    # ---- binvox.  The exporter documents one restriction: "uniform scale", where scale is the extent
-    # pitch * (n - 1) of the grid along each axis.  Cubic grids with a uniform pitch satisfy it, and so do
-    # non-cubic grids whose pitch is chosen per axis to give every axis the same extent: those are
-    # exported with the transform below instead of Mx (axis-aligned uniform classes only).
-    if min(X.shape) == 1:
-        run.skip("binvox: an axis of length 1 has no representable pitch")
-        return
-    Mb, incls = Mx, ""
-    if not cubic:
-        if not (aligned and uniform):
-            run.skip("binvox: non-cubic grid with a transform that cannot give a uniform extent")
-            return
-        Mb = Mx.copy()
-        extent = abs(Mx[0, 0]) * (max(X.shape) - 1)
-        for a in range(3):
-            Mb[a, a] = np.sign(Mx[a, a]) * extent / (X.shape[a] - 1)
-        incls = " in=noncubic"
-    Lb = Mb[:3, :3]
-    refusals = set()
-    if not aligned:
-        refusals.add("raised:RuntimeError")  # Transform.scale documents this for rotation / shear
-    if not uniform:
-        refusals |= {"raised:ValueError", "raised:RuntimeError"}  # "Can only export binvox with uniform scale"
-    exp_c = np.argwhere(X).astype(float) @ Lb.T + Mb[:3, 3]
-    ptol = atol * 10 + 1e-6 * (scale if cubic else np.abs(Lb).max()) * 8  # header floats are written with repr(): exact; pitch = scale / (n - 1)
+        def p_back(back, exp_c=exp_c, ptol=ptol):
+            if tuple(int(s) for s in back.shape) != X.shape:
+                return False
+            if not nfill:
+                return not np.asarray(back.encoding.dense).any()
+            return bool(np.array_equal(np.asarray(back.encoding.dense).astype(bool).shape, X.shape)) and \
+                _same_point_set(back.points, exp_c, ptol)
 
-    def p_back(back):
-        if tuple(int(s) for s in back.shape) != X.shape:
-            return False
-        if not nfill:
-            return not np.asarray(back.encoding.dense).any()
-        return bool(np.array_equal(np.asarray(back.encoding.dense).astype(bool).shape, X.shape)) and \
-            _same_point_set(back.points, exp_c, ptol)
+        for order in ("xzy", "xyz"):
+            def roundtrip(Mb=Mb, order=order):
+                data = mk(Mb).export(file_type="binvox", axis_order=order)
+                if not isinstance(data, bytes):
+                    raise TypeError("export did not return bytes")
+                return binvox.load_binvox(io.BytesIO(data), axis_order=order)
 
-    for order in ("xzy", "xyz"):
-        def roundtrip():
-            data = mk(Mb).export(file_type="binvox", axis_order=order)
-            if not isinstance(data, bytes):
-                raise TypeError("export did not return bytes")
-            return binvox.load_binvox(io.BytesIO(data), axis_order=order)
+            vcheck("binvox:" + order, roundtrip, p_back, k_enc + incls, refusals=refusals, binvox_matrix=Mb)
+        if aligned:
+            # the generic loader route with default axis order
+            def via_load(Mb=Mb):
+                data = mk(Mb).export(file_type="binvox")
+                return trimesh.load(io.BytesIO(data), file_type="binvox")
 
-        vcheck("binvox:" + order, roundtrip, p_back, k_enc + incls, refusals=refusals, binvox_matrix=Mb)
-    if aligned and uniform:
-        # the generic loader route with default axis order
-        def via_load():
-            data = mk(Mb).export(file_type="binvox")
-            return trimesh.load(io.BytesIO(data), file_type="binvox")
+            vcheck("binvox:load_default", via_load, p_back, k_enc + incls, refusals=refusals, binvox_matrix=Mb)
 
-        vcheck("binvox:load_default", via_load, p_back, k_enc + incls, binvox_matrix=Mb)
+
+def grid_views(shape):
+    """(view class, op) one-step views of a 3-D encoding, by the public methods"""
+    out = [("flip", ["flip", [0]]), ("flip", ["flip", [0, 2]]), ("flip", ["flip", [0, 1, 2]]),
+           ("transpose[swap]", ["transpose", [0, 2, 1]]), ("transpose[cycle]", ["transpose", [1, 2, 0]]),
+           ("reshape", ["reshape", [shape[2], shape[0], shape[1]]]), ("reshape", ["reshape", [shape[1], shape[0], shape[2]]])]
+    return out
+
+
+GRID_READS = ("points", "bounds", "filled_count", "volume", "is_empty", "shape", "is_filled", "sparse_indices")
+STRIP_PAD = [(2, 0), (0, 0), (0, 1)]  # two empty planes below axis 0, one above axis 2
+
+
+def _ref_view(X, vcls, op):
+    """numpy only: the array a grid holds after the step"""
+    if vcls == "strip":
+        return np.pad(X, STRIP_PAD)
+    if vcls == "same_values_other_shape":
+        return X.reshape(X.shape[::-1]).copy()
+    if vcls == "other_array":
+        return np.roll(~X, 1, axis=2)
+    name, arg = op
+    if name == "flip":
+        return np.flip(X, tuple(arg)).copy()
+    if name == "transpose":
+        return X.transpose(arg).copy()
+    return X.reshape(arg).copy()
+
+
+def check_grid_history(run, X, base, cdtype, tcls, Mx, aligned, only=None):
+    """
+    One grid object across a replacement of its encoding (the public `encoding` setter, which `strip`, `fill`
+    and `hollow` use themselves): read the grid, give it another encoding - a flipped / transposed / reshaped
+    view of the one it has (by the public methods; base `binvox`: the chain a loaded file hands out), the same
+    values under another shape, an unrelated array, or let `strip()` replace it - and read it again.  The
+    oracle is the array the grid now holds (np.flip / transpose / reshape of X) with the grid's transform: what
+    a grid built from scratch answers.  For strip: the points of the padded array stay where they were.
+    key: vg=<read>@after_set_encoding view=<view class> enc=<base> sym=...   (a read that a never-read grid
+    built with the same encoding gets wrong as well is reported as vg=<read> enc=<base>.<view> sym=...)
+    """
+    from trimesh.exchange import binvox
+    from trimesh.voxel import encoding as E
+    from trimesh.voxel.base import VoxelGrid
+
+    X = np.array(X, dtype=bool)
+    Mx = np.array(Mx, dtype=np.float64)
+    L = Mx[:3, :3]
+    scale = abs(np.linalg.det(L)) ** (1 / 3.0)
+    atol = 1e-9 * (scale * 12 + max(1.0, float(np.abs(Mx[:3, 3]).max())))
+    ename = base if cdtype == "int64" or base in ("Dense", "Sparse", "binvox") else "%s[%s]" % (base, cdtype)
+    corners = np.array(list(itertools.product((-0.5, 0.5), repeat=3)))
+
+    def encoding_of(A):
+        if base == "binvox":
+            # the chain a loaded file hands out: Transposed(Shaped(RLE[uint8]))
+            g = VoxelGrid(E.DenseEncoding(A.copy()), transform=np.diag([1.0 / max(n - 1, 1) for n in A.shape] + [1.0]))
+            return binvox.load_binvox(io.BytesIO(g.export(file_type="binvox"))).encoding
+        return build_base(base, A, cdtype)
+
+    def read_all(vg):
+        return vg.points, vg.bounds, vg.extents, vg.filled_count, vg.volume, vg.is_empty
+
+    def build(vcls, op, read_first):
+        """the grid after the step; read_first: it is read before its encoding is replaced"""
+        if vcls == "strip":
+            vg = VoxelGrid(encoding_of(np.pad(X, STRIP_PAD)), transform=Mx.copy())
+            if read_first:
+                read_all(vg)
+            vg.strip()
+            return vg
+        enc0 = encoding_of(X)
+        if op is None:
+            new = E.DenseEncoding(_ref_view(X, vcls, op))
+        else:
+            new = apply_op(enc0, X, op)[0]
+        if not read_first:
+            return VoxelGrid(new, transform=Mx.copy())
+        vg = VoxelGrid(enc0, transform=Mx.copy())
+        read_all(vg)
+        vg.encoding = new
+        return vg
+
+    steps = grid_views(X.shape) + [("same_values_other_shape", None), ("other_array", None), ("strip", None)]
+    for vcls, op in steps:
+        if base == "binvox" and min(X.shape) == 1:
+            continue
+        R = _ref_view(X, vcls, op)
+        filled = np.argwhere(R)
+        pts = filled.astype(float) @ L.T + Mx[:3, 3]
+        cc = (filled[:, None, :] + corners[None]).reshape(-1, 3) @ L.T + Mx[:3, 3]
+        lo, hi = (cc.min(axis=0), cc.max(axis=0)) if len(filled) else (np.zeros(3), np.zeros(3))
+        cells = np.argwhere(np.ones(R.shape, bool)).astype(float) @ L.T + Mx[:3, 3]
+        vol = len(filled) * abs(np.linalg.det(L))
+        preds = {
+            "points": lambda g: _same_point_set(g, pts, atol),
+            "bounds": (lambda g: np.allclose(g, [lo, hi], rtol=0, atol=atol)) if aligned else
+                      (lambda g: np.all(np.asarray(g)[0] <= lo + atol) and np.all(np.asarray(g)[1] >= hi - atol)),
+            "filled_count": lambda g: int(g) == len(filled),
+            "volume": lambda g: abs(float(g) - vol) <= 1e-9 * vol,
+            "is_empty": lambda g: bool(g) == (len(filled) == 0),
+            # strip: the shape is the tight box, not judged here (Encoding.stripped is judged in the table)
+            "shape": lambda g: vcls == "strip" or tuple(int(x) for x in g) == R.shape,
+            "is_filled": lambda g: np.array_equal(np.asarray(g).astype(bool).reshape(-1), R.reshape(-1)),
+            "sparse_indices": lambda g: len(g) == len(filled) and (
+                vcls == "strip" or sorted(map(tuple, np.asarray(g).tolist())) == sorted(map(tuple, filled.tolist()))),
+        }
+        for read in GRID_READS:
+            if only is not None and read != only:
+                continue
+
+            def thunk(read_first=True):
+                vg = build(vcls, op, read_first)
+                return vg.is_filled(cells.copy()) if read == "is_filled" else getattr(vg, read)
+
+            sym, detail = _outcome(thunk, preds[read])
+            step = "strip" if vcls == "strip" else "set_encoding"
+            key = "vg=%s@after_%s view=%s enc=%s" % (read, step, vcls, ename)
+            if sym != "ok":
+                # is it the history?  the same read on a grid that was never read before
+                fsym, fdetail = _outcome(lambda: thunk(read_first=False), preds[read])
+                if fsym != "ok":
+                    sym, detail = fsym, fdetail
+                    key = "vg=%s enc=%s.%s" % (read, ename, vcls)
+            run.count("vg_checks")
+            run.count("vg_history:%s|%s|%s" % (read, vcls, sym))
+            run.state("vg_cell", (read + "@after_" + step, vcls, ename, sym))
+            run.case("vg:history:" + read, vcls, repr(op), ename, tcls, X, Mx, nontrivial=bool(X.any()))
+            if sym != "ok":
+                run.violation(
+                    key + " sym=" + sym,
+                    "VoxelGrid.%s after its encoding was replaced (%s) is not that of the array the grid holds"
+                    % (read, vcls),
+                    {"part": "vgh", "check": read, "view": vcls, "op": op, "array": _pack(X), "base": base,
+                     "cdtype": cdtype, "tf_class": tcls, "matrix": Mx, "aligned": aligned, "observed": detail},
+                )
 
 
 def _same_point_set(a, b, atol):
@@ -1580,7 +1947,74 @@ def _same_point_set(a, b, atol):
     return True
 
 
+def binvox_transforms(rng):
+    """axis-aligned transform classes for the export / reload checks: (class, 4x4, axis_aligned, uniform pitch)"""
+    t = rng.uniform(-5, 5, size=3)
+
+    def M(d, t):
+        m = np.eye(4)
+        m[:3, :3] = np.diag(d)
+        m[:3, 3] = t
+        return m
+
+    out = [("identity", np.eye(4), True, True), ("scale_uniform", M([0.25] * 3, t), True, True),
+           # units far from 1: absolute tolerances of the exporter are not in the grid's unit
+           ("unit_tiny", M([1e-9] * 3, t * 1e-9), True, True), ("unit_huge", M([1e9] * 3, t * 1e9), True, True),
+           ("mirror_axis", M([-0.5, 0.5, 0.5], t), True, True), ("mirror_axis", M([0.5, 0.5, -0.5], t), True, True)]
+    for a in range(3):
+        d = np.full(3, 0.5)
+        d[a] = 1.0  # one axis with another pitch, in every position
+        out.append(("scale_odd_" + "xyz"[a], M(d, t), True, False))
+        d = np.full(3, 0.5)
+        d[a] = 0.5 * (1 + 1e-4)  # slightly off: inside any loose tolerance?  1e-4 is not "uniform" for 4 cells
+        out.append(("scale_off_" + "xyz"[a], M(d, t), True, False))
+    out.append(("scale_axes", M([0.5, 2.0, 1.25], t), True, False))
+    return out
+
+
+BINVOX_SHAPES = ((4, 4, 4), (3, 5, 5), (5, 3, 5), (5, 5, 3), (2, 3, 4), (1, 1, 1), (1, 4, 4), (4, 1, 4), (4, 4, 1), (1, 1, 3))
+
+
+def part_voxelgrid_first(run):
+    """the small fixed classes of the grid part, before the time-boxed product"""
+    item = 0
+    # (a) export / reload: every shape class (cubic, one odd axis in every position, all different, one cell
+    # thick in every position) x every axis-aligned transform class
+    tfs = binvox_transforms(run.rng)
+    for shape in BINVOX_SHAPES:
+        N = int(np.prod(shape))
+        for tag, X in (("mod3", (np.arange(N).reshape(shape) % 3 == 1) if N > 1 else np.ones(shape, bool)),
+                       ("full", np.ones(shape, bool))):
+            for base, cd in (("Dense", "int64"),):  # the exporter's checks on the transform do not read the encoding
+                for tcls, Mx, aligned, uniform in tfs:
+                    if tcls == "mirror_axis" and min(shape) > 1 and shape != (4, 4, 4):
+                        continue  # mirrors: on the grids one cell thick (a mirrored axis of length 1) and a control
+                    item += 1
+                    if run.mine(item):
+                        check_grid(run, X, base, cd, tcls, Mx, aligned, uniform, binvox_only=True)
+    # (b) one grid across a replacement of its encoding
+    gts = {t[0]: t for t in grid_transforms(run.rng)}
+    for shape in ((2, 3, 4), (3, 3, 3)):
+        X = np.arange(int(np.prod(shape))).reshape(shape) % 3 == 1
+        for base, cd in (("Dense", "int64"), ("Sparse", "int64"), ("RLE", "uint8"), ("binvox", "int64")):
+            for tname in ("scale_axes", "mirror_axis", "similarity") if shape == (2, 3, 4) else ("translation",):
+                tcls, Mx, aligned, uniform = gts[tname]
+                item += 1
+                if run.mine(item):
+                    check_grid_history(run, X, base, cd, tcls, Mx, aligned)
+    # (c) an occupancy view (declared bool) of run-length encoded labels as the grid's encoding
+    for shape in ((2, 3, 4), (3, 3, 3)):
+        X = np.arange(int(np.prod(shape))).reshape(shape) % 3 != 1
+        for tname in ("translation", "mirror_axis", "similarity"):
+            tcls, Mx, aligned, uniform = gts[tname]
+            item += 1
+            if run.mine(item):
+                check_grid(run, X, "RLE", "int64", tcls, Mx, aligned, uniform, labels=True)
+    run.note("elapsed_after_voxelgrid_first", round(run.elapsed(), 1))
+
+
 def part_voxelgrid(run, frac_end):
+    part_voxelgrid_first(run)
     item = 0
     rounds = 0
     while True:
@@ -1634,4 +2068,8 @@ def replay(run, case):
         run_recipe(run, _unpack(case["array"]), case["recipe"])
     elif part == "vg":
         check_grid(run, _unpack(case["array"]), case["base"], case["cdtype"], case["tf_class"],
-                   np.array(case["matrix"], dtype=float), case["aligned"], case["uniform"])
+                   np.array(case["matrix"], dtype=float), case["aligned"], case["uniform"],
+                   labels=bool(case.get("labels")), binvox_only=bool(case.get("binvox_only")))
+    elif part == "vgh":
+        check_grid_history(run, _unpack(case["array"]), case["base"], case["cdtype"], case["tf_class"],
+                           np.array(case["matrix"], dtype=float), case["aligned"])
